@@ -234,17 +234,56 @@ pub fn subs_for(id: &str) -> Vec<Sub> {
                 80_000,
             ),
         ],
-        "C19" => vec![sub(
-            p_builder::C19 {
-                cfg: GenCfg {
-                    p_static: 0,
-                    batch_decl: false,
-                    ..GenCfg::default()
+        "C19" => vec![
+            sub(
+                p_builder::C19 {
+                    cfg: GenCfg {
+                        p_static: 0,
+                        batch_decl: false,
+                        ..GenCfg::default()
+                    },
+                    name: "c19-metamorphic",
                 },
-            },
-            120_000,
-            3_000_000,
-        )],
+                120_000,
+                3_000_000,
+            ),
+            sub(
+                p_builder::C19 {
+                    // few writers, up to 6 reads per system: groups whose accumulated read lists sit
+                    // at and beyond the inline capacity, where the concrete id order could matter
+                    cfg: GenCfg {
+                        max_ops: 40,
+                        universe_max: 10,
+                        max_reads: 6,
+                        max_writes: 1,
+                        write_chance: 4,
+                        p_dep: 0,
+                        p_barrier: 0,
+                        p_batch: 0,
+                        p_tl: 0,
+                        p_static: 0,
+                        batch_decl: false,
+                        ..GenCfg::default()
+                    },
+                    name: "c19-metamorphic-heavy-readers",
+                },
+                80_000,
+                2_000_000,
+            ),
+            sub(
+                p_builder::C19 {
+                    // dependency lists of up to 7 distinct names, renamed so that name order and
+                    // registration order disagree
+                    cfg: GenCfg {
+                        batch_decl: false,
+                        ..wide_cfg()
+                    },
+                    name: "c19-metamorphic-wide",
+                },
+                80_000,
+                2_000_000,
+            ),
+        ],
         "C20" => vec![
             sub(
                 LayoutProp {
@@ -977,7 +1016,14 @@ pub fn sched_subs_for(id: &str) -> Vec<Sub> {
                 1_200,
                 40_000,
             )
-        }],
+        }, async_sub(
+            "C15",
+            "c15-async-wide",
+            GenCfg {
+                max_ops: 16,
+                ..wide_cfg()
+            },
+        )],
         "C16" => vec![
             Sub {
                 max_lanes: 8,
